@@ -182,11 +182,7 @@ def handle(job):
          "retries": float(retries), "iters": float(iters), "ratio": float(ratio)}
   finite = bool(np.isfinite(X).all())
   xmax = float(np.max(np.abs(X))) if finite else float("nan")
-  if finite and xmax > 0:
-    asym = float(np.max(np.abs(X - X.T))) / xmax
-    asym_u = min(int(math.ceil(asym * 1e12)), 2 * 10 ** 9)
-  else:
-    asym, asym_u = 0.0, 0
+  asym = float(np.max(np.abs(X - X.T))) / xmax if (finite and xmax > 0) else 0.0
   outside = np.ones((n, n), bool)
   outside[:m, :m] = False
   padnz = int(np.count_nonzero(X[outside])) if case["ps"] >= 0 else 0
@@ -225,13 +221,13 @@ def handle(job):
     for i in range(R):
       last = (i == R - 1)
       # only the last attempt's error is visible (and only on the Newton route)
-      cls = c05 if (last and derived["figure"] == "tracked_error") else "unobserved"
+      cls = c05 if (last and derived["figure"] == "tracked_error" and not derived["allpad"]) else "unobserved"
       ev.append({"a": "Attempt", "cls": cls})
     ev.append({"a": "ExitLoop"})
     if case["method"] == "lobpcg":
       ev.append({"a": "Redeflate"})
   ev.append({"a": "Report", "fc": fc, "fig": fig, "c05": c05, "retries": r_int})
-  ev.append({"a": "Return", "finite": finite, "asym": asym_u, "padnz": padnz, "xzero": xzero,
+  ev.append({"a": "Return", "finite": finite, "asym": dec(asym, up=True), "padnz": padnz, "xzero": xzero,
              "figzero": bool(f32 == 0)})
   gate = {"a": "Gate", "accepted": accepted, "meas": {"abs": [], "rel_lam": [], "rel_floor": [], "nan": []}}
   if case["dt"] == "f64" and finite and m > 0:
